@@ -198,6 +198,11 @@ def run_scenario(sc):
             except Exception as e:
                 return "step %d (%s): failed with the internal error %s: %s" % (i, st[0], type(e).__name__, e), None
             advertised[:] = [((e[1] if use_vpc else e[0]), e[2]) for e in st[1]]
+            # straight after construction / a successful reconfiguration the rotation IS the advertised list: a node that had been
+            # evicted before (and is still advertised) is back in it (the calls of observe() may evict refusing nodes again)
+            nodes, want = sorted(client.hasher.nodes), sorted("%s:%s" % a for a in set(advertised))
+            if nodes != want:
+                return "step %d: straight after the reconfiguration the rotation is %r, advertised %r" % (i, nodes, want), None
             r = observe(i)
             if r:
                 return r
@@ -456,6 +461,13 @@ def search(ctx):
                 rest = [x for j, x in enumerate(nodes) if j != victim]
                 fixed.append((vpc, [], [("adv", nodes), ("refuse", nodes[victim]), ("traffic",), ("adv", rest), ("accept", nodes[victim]), ("tick", 61), ("traffic",),
                                         ("tick", 200), ("traffic",), ("adv", rest)]))
+    # a node evicted by the failover and STILL advertised: the next reconfiguration (same list, or a superset) puts it back
+    for vpc in (True, False):
+        for n_nodes in (2, 3):
+            for victim in range(n_nodes):
+                nodes = UNIVERSE[:n_nodes]
+                fixed.append((vpc, [], [("adv", nodes), ("refuse", nodes[victim]), ("traffic",), ("accept", nodes[victim]), ("adv", nodes), ("traffic",),
+                                        ("refuse", nodes[victim]), ("traffic",), ("adv", nodes + UNIVERSE[5:6])]))
     for i in range(len(fixed) + (150 if ctx.quick else 2000)):
         sc = fixed[i] if i < len(fixed) else scenario(rng, ctx.quick)
         n += 1
